@@ -8,7 +8,8 @@
 (* steps the search branches; traces are concatenated (every trace starts   *)
 (* with a reset event, which collapses all branches) and accepted when the  *)
 (* high-water mark reaches the end of the file.                             *)
-(* Events: reset{sc} call{op} ret{op,res,code} cancel{how} hexit{saweof}    *)
+(* Events: reset{sc} call{op} ret{op,res,code} api{op,ok,code} cancel{how}   *)
+(*         hexit{saweof}                                                    *)
 (*         quiesce{leaked,closed,closeresp}                                 *)
 (***************************************************************************)
 EXTENDS Call, Json, IOUtils
@@ -39,6 +40,19 @@ TRet == /\ Ev("ret") /\ Adv /\ Returning
         /\ \/ Cur.op \in {"closereq", "closeresp"}              \* closing may report a late transport error
            \/ /\ log'[Len(log')][2] = Cur.res
               /\ (Cur.res = "ctx" => Cur.code = CtxCode)          \* C15: canceled for cancel(), deadline_exceeded for expiry
+\* the library's own wrappers: CallServerStream (Send + CloseRequest) hands back a stream also when the Send found
+\* the stream already closed by the server (io.EOF: the outcome is for Receive to report); CloseAndReceive succeeds
+\* exactly when the response side yielded one message and then the clean end
+ResultsOf(op) == SelectSeq(log, LAMBDA e : e[1] = op)
+TApi == /\ Ev("api") /\ Adv /\ UNCHANGED vars
+        /\ spc \in {"idle", "sdone"} /\ rpc \in {"idle", "rdone"}
+        /\ LET snd == ResultsOf("send")
+               rcv == ResultsOf("recv") IN
+           /\ (Cur.op = "css" => (Cur.ok <=> (Len(snd) = 1 /\ snd[1][2] \in {"ok", "eof"})))
+           /\ (Cur.op = "car" => (Cur.ok <=> (Len(rcv) = 2 /\ rcv[1][2] = "msg" /\ rcv[2][2] = "eof")))
+           \* C15: a wrapper that fails because of the context reports the context's code
+           /\ (Cur.op = "car" /\ Len(rcv) = 1 /\ rcv[1][2] = "ctx" => Cur.code = CtxCode)
+           /\ (Cur.op = "css" /\ Len(snd) = 1 /\ snd[1][2] = "ctx" => Cur.code = CtxCode)
 TCancel == Ev("cancel") /\ Adv /\ CancelAs(Cur.how)
 \* the handler returned: whether it saw the end of the request stream
 THexit == /\ Ev("hexit") /\ Adv /\ hpc = "done"
@@ -53,7 +67,7 @@ Silent == /\ Stay
           /\ \/ (Returning /\ log' = log)
              \/ W1 \/ R1 \/ QDoOK \/ QDoErr \/ QVal \/ QReady \/ Env
 
-TraceNext == TReset \/ TCall \/ TRet \/ TCancel \/ THexit \/ TQuiesce \/ Silent
+TraceNext == TReset \/ TCall \/ TRet \/ TApi \/ TCancel \/ THexit \/ TQuiesce \/ Silent
 TraceSpec == TraceInit /\ [][TraceNext]_tvars
 HWM == TLCSet(1, IF TLCGet(1) < l THEN l ELSE TLCGet(1))
 TraceAccepted == IF TLCGet(1) = Len(Trace) + 1 THEN TRUE
